@@ -98,6 +98,7 @@ std::string compare_views(ChkptView const& a, ChkptView const& b, bool ignore_nz
 // after each iteration (C12)
 std::vector<ld> reference_rel_errors(ChkptView const& v);
 ld rel_error_uncertainty(ChkptView const& v, int nt);
+std::vector<ld> reference_value_conditions(ChkptView const& v);
 
 // the canonical number libstdc++ makes of one 64 bit raw output for numeric type nt
 ld canonical_from_raw64(int nt, u64 raw);
